@@ -264,9 +264,19 @@ def run(ctx):
     for lp_ in loop:
         first = lp_.body[0]
         V = lp_.target.id
-        if isinstance(first, ast.If) and f"{P_CN} not in" in ast.unparse(first.test) and ".coords" in ast.unparse(first.test):
-            body = [ast.unparse(s) for s in first.body]
-            okpass = any(b.replace(" ", "") == f"{R}[{V}]={P_DS}[{V}]" for b in body) and body[-1] == "continue"
+        from .fc import substitute_defs as _sdp
+        # the guard may follow a few plain bindings (`da = ds[v]`); locals are read through to what they stand for
+        guards_ = [s for s in lp_.body if isinstance(s, ast.If)]
+        lead = lp_.body[:lp_.body.index(guards_[0])] if guards_ else []
+        first = guards_[0] if guards_ and all(isinstance(s, ast.Assign) and len(s.targets) == 1 and isinstance(s.targets[0], ast.Name)
+                                              for s in lead) else first
+        keep_ = {V, P_DS, P_CN, R}
+        if isinstance(first, ast.If):
+            test_ = ast.unparse(_sdp(fa.node, first.test, keep_))
+            if f"{P_CN} not in" in test_ and ".coords" in test_ and f"{P_DS}[{V}]" in test_:
+                body = [ast.unparse(_sdp(fa.node, s.value, keep_)) if isinstance(s, ast.Assign) and len(s.targets) == 1
+                        and ast.unparse(s.targets[0]) == f"{R}[{V}]" else None for s in first.body]
+                okpass = any(b == f"{P_DS}[{V}]" for b in body) and isinstance(first.body[-1], ast.Continue)
     ctx.expect(okpass, "R13.4", "interpolate_dataset_along_axis[pass-through]",
                "variables without the interpolated coordinate are copied unchanged", fa.loc())
     # every variable is interpolated with its own settings: nothing assigned in one iteration of the per-variable loop may be
@@ -290,8 +300,8 @@ def run(ctx):
 
         def from_mapping(e, k):
             """e is a local bound to element k of <periodic_data>[<loop variable>]"""
-            return isinstance(e, ast.Name) and any(d[0] == "unpack" and ast.unparse(d[1]) == f"{P_PD}[{V}]" and d[2] == k
-                                                   for d in la_fa.get(e.id, []))
+            return isinstance(e, ast.Name) and any(d[0] == "unpack" and ast.unparse(d[1]) in (
+                f"{P_PD}[{V}]", f"{P_PD}.get({V}, (None, None))") and d[2] == k for d in la_fa.get(e.id, []))
         ok = ast.unparse(b.get("nearest_neighbour", ast.Constant(None))) == P_NN \
             and ast.unparse(b.get("interp_index_coord_name", ast.Constant(None))) == P_CN \
             and from_mapping(b.get("data_period"), 0) and from_mapping(b.get("data_discont"), 1) \
